@@ -398,6 +398,7 @@ def entry_points():
 
 
 GENERIC = ["a", "1", "-", ".", ":", "!", "/", "@", " ", "A", "_", "\n", "\"", "'"]
+GENERIC_RUNS = ["F-22-20160622", "a1" * 16]
 
 
 # ---- number-shaped text ----------------------------------------------------------------------------------------------------
@@ -896,6 +897,8 @@ def run(ctx):
         fams = chosen(GENERIC, 1, 2, None if ctx.thorough else 120, (ctx.seed, name))
         if ctx.thorough and ("loads" in name or "add" in name):
             fams = fams[:6000]
+        # what stands behind a date or a digest in a value is reached only by inputs that carry one (no pattern needed to know that)
+        fams = fams + [(run, pump, suffix) for run in GENERIC_RUNS for pump in GENERIC + [".1", ".a", "-1", "1.", "a.", ".n", ":1"] for suffix in ("", "!", "-x")]
         for fam in fams:
             work.append((name, fam))
     slow = {}
